@@ -125,11 +125,11 @@ class RSpace(object):
             self.W = (np.concatenate([self.pw[i] * p.W
                                       for i, p in enumerate(self.parts)])
                       if n else np.zeros(0))
-            self.is_power = n >= 1 and all(p.sd == pds[0] for p in pds)
+            self.is_power = n >= 1 and all(p == pds[0] for p in pds)
         else:
             self.parts = None
             self.pw = None
-            self.pkind = 'na'
+            self.pkind = '-'
             self.shape = tuple(int(s) for s in sd['shape'])
             self.size = int(np.prod(self.shape, dtype=int))
             self.leafW = leaf_weights(sd).ravel().astype(float)
@@ -138,17 +138,32 @@ class RSpace(object):
             self.slices = None
 
     # weighting classification (for signatures / strata)
+    def has_array_weighting(self):
+        """Some tensor leaf carries an array-type weighting object."""
+        if self.parts is not None:
+            return any(p.has_array_weighting() for p in self.parts)
+        w = self.sd.get('weighting')
+        return w is not None and w.get('type') == 'array'
+
     def leaf_kind(self):
+        """unit / const / nonuniform by the values of the entry weights
+        (product weights excluded), '+arr' when an array weighting object
+        is involved."""
         w = self.leafW
         if w.size == 0 or np.all(w == 1.0):
-            return 'unit'
-        if np.all(w == w[0]):
-            return 'const'
-        return 'nonuniform'
+            kind = 'unit'
+        elif np.all(w == w[0]):
+            kind = 'const'
+        else:
+            kind = 'nonuniform'
+        return kind + ('+arr' if self.has_array_weighting() else '')
+
+    def leaf_values(self):
+        return self.leaf_kind().split('+')[0]
 
     def prod_kind(self):
         if self.parts is None:
-            return 'na'
+            return '-'
         kinds = [self.pkind] + [p.prod_kind() for p in self.parts]
         for k in ('array', 'const'):
             if k in kinds:
